@@ -212,6 +212,8 @@ func scnTimeouts(ctx *check.JobCtx) {
 	attempts := int(ctx.ArgInt("attempts", 3))
 	tdClass := ctx.Arg("td", "small")
 	viaReady := ctx.Arg("ready", "") == "1"
+	twin := ctx.Arg("twin", "") == "1"
+	var twinOid uint64
 	gwA := w.Acct("gw0")
 	var spA []*actors.Account
 	for i := 0; i < replica+extra; i++ {
@@ -330,7 +332,22 @@ func scnTimeouts(ctx *check.JobCtx) {
 				w.Ready(gw.Acct, oid, gw.Acct.Addr.String())
 			}
 		} else {
+			// twin: a second order of the same gateway is created in the same block with the same timeout (both
+			// are due for examination at the same height) and cancelled a block later, before or after in tx order
+			mkTwin := func() {
+				d2 := w.NewDataId()
+				r2 := req
+				r2.DataId, r2.CommitId = d2, d2
+				_, twinOid = w.Store(r2)
+			}
+			twinOid = 0
+			if twin && pat%4 == 0 {
+				mkTwin()
+			}
 			_, oid = w.Store(req)
+			if twin && pat%4 == 2 {
+				mkTwin()
+			}
 		}
 		if oid == 0 {
 			continue
@@ -343,6 +360,10 @@ func scnTimeouts(ctx *check.JobCtx) {
 		w.Case("c12:pattern:replica=%d,extra=%d,td=%s,ready=%v,late=%v,bits=%0*b", replica, extra, tdClass, viaReady, viaReady && pat%2 == 1, nbits, pat)
 		decide(w)
 		w.EndBlock()
+		if twinOid != 0 {
+			e := w.Cancel(gw.Acct, twinOid, gw.Acct.Addr.String())
+			w.Case("c12:twin-cancelled:ok=%v,first=%v", e.OK, pat%4 == 0)
+		}
 		for k := int64(0); k < step; k++ {
 			decide(w)
 			w.EndBlock()
